@@ -89,6 +89,16 @@ def array_rules(prog, chk, rid):
             else:
                 chk.bad(rid, f, "append-end-not-advanced", "%s:%s" % (f.file, f.line), "append constructs an element but does not advance _end.item past it on every path")
         for f in [f for f in fs if f.short == "remove" and f.cls == tn]:
+            deleg = [c for c in q.calls(f) if _this_call(f, c, "remove")]
+            if deleg and not C.dtor_events(f):
+                # removal by index expressed through the iterator overload: nothing to check here but the position handed over
+                a = q.no_casts(C.norm(f, q.call_args(f, deleg[0])[0]))
+                pidx = [p["n"] for p in f.params]
+                if any(re.search(r"this->_begin\.item \+ %s\b" % re.escape(x), a) for x in pidx):
+                    chk.ok(rid, f, "remove(index) delegates to remove(Iterator(_begin.item + index))", "%s:%s" % (f.file, f.line), a[:60], nontrivial=False)
+                else:
+                    chk.bad(rid, f, "remove-delegates-wrong-position", f.where(deleg[0]), "remove(index) hands `%s` to the iterator overload, expected _begin.item + index" % a[:60])
+                continue
             dt = [d for d, _o in C.dtor_events(f)]
             st = C.nstores(f)
             dec = [s.node for s, l, r in st if l == "this->_end.item" and r.replace(" ", "") == "this->_end.item-1"]
